@@ -65,7 +65,7 @@ func newReqServer(sym *reqSym, sopts ...gldap.Option) (*reqServer, error) {
 	_ = mux.ExtendedOperation(record("n2"), gldap.ExtendedOperationName(sym.str["n2"]))
 	_ = mux.Unbind(record(""))
 	_ = mux.DefaultRoute(record("?default"))
-	opts := append([]gldap.Option{gldap.WithLogger(hx.NullLogger()), gldap.WithOnClose(func(id int) { rs.closed <- id })}, sopts...)
+	opts := append([]gldap.Option{gldap.WithLogger(hx.NullLogger()), gldap.WithOnClose(func(id int) { rs.closed <- id })}, sopts...) // (a later WithLogger in sopts wins)
 	srv, err := hx.StartServer(mux, opts, nil)
 	if err != nil {
 		return nil, err
@@ -141,7 +141,7 @@ func C01(args []string) error {
 	sym := newReqSym()
 	errs := make([]error, *par)
 	hx.Parallel(*par, *par, func(w int) {
-		rs, err := newReqServer(sym)
+		rs, err := newReqServer(sym, gldap.WithLogger(hx.LoggerFor(w))) // every other server logs at debug level
 		if err != nil {
 			errs[w] = err
 			return
